@@ -203,6 +203,9 @@ func runC15(c *Ctx) {
 							has = true
 							continue
 						}
+						if g.Derived {
+							continue
+						}
 						extra = true
 					}
 					good = has && !extra
@@ -289,6 +292,7 @@ func runC15(c *Ctx) {
 		// every reply leaves through the one pack call behind the RespOpt step (no second reply path without it)
 		checkSinglePackSite(c, hh)
 	}
+	inlinedDoStore := map[*ssa.Store]bool{}
 	if nc != nil {
 		respOK, doOK := false, false
 		eachInstr(nc, func(in ssa.Instruction) {
@@ -306,6 +310,13 @@ func runC15(c *Ctx) {
 				}
 			}
 			if ci, ok := in.(*ssa.Call); ok && callName(ci) == relQctx+".setDo" {
+				// setDo(respOpt, clientOpt.Do()): the flag itself is handed over (setDo only ever sets the bit, and the
+				// response OPT is fresh)
+				if cl, ok := ci.Call.Args[1].(*ssa.Call); ok && callName(cl) == "(*github.com/miekg/dns.OPT).Do" {
+					if k2, _ := loadedField(cl.Call.Args[0]); k2 == Q+"clientOpt" {
+						doOK = true
+					}
+				}
 				if b, ok := constBool(ci.Call.Args[1]); ok && b {
 					for _, g := range guardsOfInstr(in) {
 						v, truth := g.asBool()
@@ -318,10 +329,79 @@ func runC15(c *Ctx) {
 				}
 			}
 		})
+		// second form: the one-use helper inlined — `respOpt.Hdr.Ttl |= 1 << 15` on the fresh response OPT under
+		// clientOpt.Do()
+		if !doOK {
+			eachInstr(nc, func(in ssa.Instruction) {
+				st, ok := in.(*ssa.Store)
+				if !ok {
+					return
+				}
+				if k, _ := fieldKey(st.Addr); k != "github.com/miekg/dns.RR_Header.Ttl" {
+					return
+				}
+				fa, ok := st.Addr.(*ssa.FieldAddr)
+				if !ok {
+					return
+				}
+				hdr, ok := fa.X.(*ssa.FieldAddr)
+				if !ok {
+					return
+				}
+				if k, _ := fieldKey(hdr); k != "github.com/miekg/dns.OPT.Hdr" {
+					return
+				}
+				base := hdr.X
+				if ld, isLd := base.(*ssa.UnOp); isLd {
+					if k, _ := loadedField(ld); k == Q+"respOpt" {
+						base = nil // ctx.respOpt itself: made by newOpt just before (respopt-iff-clientopt)
+					}
+				}
+				if base != nil {
+					cl, isCall := base.(*ssa.Call)
+					if !isCall || newOpt == nil || staticCallee(cl) != newOpt {
+						return
+					}
+					stored := false
+					for _, r := range referrers(cl) {
+						if s2, ok := r.(*ssa.Store); ok && s2.Val == ssa.Value(cl) {
+							if k, _ := fieldKey(s2.Addr); k == Q+"respOpt" {
+								stored = true
+							}
+						}
+					}
+					if !stored {
+						return
+					}
+				}
+				bo, ok := st.Val.(*ssa.BinOp)
+				if !ok || bo.Op != token.OR {
+					return
+				}
+				if n, ok := constInt(bo.Y); !ok || n != 1<<15 {
+					return
+				}
+				if ld, ok := bo.X.(*ssa.UnOp); !ok || !sameAddr(ld.X, st.Addr, 0) {
+					return
+				}
+				for _, g := range guardsOfInstr(in) {
+					v, truth := g.asBool()
+					if cl, ok := v.(*ssa.Call); ok && truth && callName(cl) == "(*github.com/miekg/dns.OPT).Do" {
+						if k2, _ := loadedField(cl.Call.Args[0]); k2 == Q+"clientOpt" {
+							doOK = true
+							inlinedDoStore[st] = true
+						}
+					}
+				}
+			})
+		}
 		c.check(respOK, "respopt-iff-clientopt", nc.Pos(), "respOpt is created exactly when the client sent an OPT", "the response OPT is not created exactly when the client's query had one")
 		c.check(doOK, "do-mirrored", nc.Pos(), "DO is copied from the client's OPT", "the client's DO bit is not mirrored into the response OPT")
 	}
-	if sd := c.fn(relQctx, "", "setDo"); sd != nil {
+	if sd := c.P.Func(relQctx, "", "setDo"); sd == nil && len(inlinedDoStore) == 0 {
+		c.anchorMissing(relQctx + ".setDo")
+	} else if sd != nil {
+		c.see(sd)
 		good := false
 		eachInstr(sd, func(in ssa.Instruction) {
 			if st, ok := in.(*ssa.Store); ok {
@@ -383,6 +463,9 @@ func runC15(c *Ctx) {
 									has = true
 									continue
 								}
+								if g.Derived {
+									continue
+								}
 								extra = true
 							}
 							if has && !extra {
@@ -441,7 +524,7 @@ func runC15(c *Ctx) {
 		// every dns.Copy of a record taken from m.Extra is guarded by Rrtype != OPT
 		n := 0
 		good := true
-		eachInstr(cno, func(in ssa.Instruction) {
+		eachInstrDeep(cno, func(g *ssa.Function, in ssa.Instruction) {
 			ci, ok := in.(*ssa.Call)
 			if !ok || callName(ci) != "github.com/miekg/dns.Copy" {
 				return
@@ -454,21 +537,38 @@ func runC15(c *Ctx) {
 			if !ok {
 				return
 			}
-			if k, _ := loadedField(ia.X); k != "github.com/miekg/dns.Msg.Extra" {
-				return
-			}
-			n++
-			g := false
-			for _, gd := range guardsOfInstr(in) {
-				if cm, ok := gd.asCmp(); ok && cm.Op == token.NEQ {
-					if k, _ := loadedField(cm.X); k == "github.com/miekg/dns.RR_Header.Rrtype" {
-						if v, ok := constInt(cm.Y); ok && v == 41 {
-							g = true
+			isExtra := false
+			if k, _ := loadedField(ia.X); k == "github.com/miekg/dns.Msg.Extra" {
+				isExtra = true
+			} else if pa, ok := ia.X.(*ssa.Parameter); ok && g.Parent() == nil && g != cno {
+				// a new helper that copies the section it is handed: one of its calls hands it m.Extra
+				sites, _ := callSitesOf(g)
+				for _, st := range sites {
+					args := st.(ssa.CallInstruction).Common().Args
+					for i, fp := range g.Params {
+						if fp == pa && i < len(args) {
+							if k, _ := loadedField(args[i]); k == "github.com/miekg/dns.Msg.Extra" {
+								isExtra = true
+							}
 						}
 					}
 				}
 			}
-			if !g {
+			if !isExtra {
+				return
+			}
+			n++
+			guarded := false
+			for _, gd := range guardsOfInstr(in) {
+				if cm, ok := gd.asCmp(); ok && cm.Op == token.NEQ {
+					if k, _ := loadedField(cm.X); k == "github.com/miekg/dns.RR_Header.Rrtype" {
+						if v, ok := constInt(cm.Y); ok && v == 41 {
+							guarded = true
+						}
+					}
+				}
+			}
+			if !guarded {
 				good = false
 			}
 		})
@@ -515,6 +615,10 @@ func runC15(c *Ctx) {
 						return
 					}
 					n++
+					if inlinedDoStore[x] {
+						c.ok("opt-header-write@"+funcName(fn), instrPos(in), "the DO bit is set on the fresh response OPT where it is made (setDo inlined)")
+						return
+					}
 					c.check(allowedHdr[fn.Name()], "opt-header-write@"+funcName(fn), instrPos(in), "OPT header written where the OPT is made", "an OPT header field is written in "+funcName(fn)+": the DO bit / version / extended rcode the client is shown no longer mirror what NewContext derived from the client's OPT")
 				case *ssa.Call:
 					cn := callName(x)
